@@ -33,7 +33,7 @@ fn send_internal<T: Send>(
   unsafe { *(*node).val.get() = Some(value) };
   shared.publish(node, node);
   shared.record_sent(shard, 1);
-  shared.notify_receivers();
+  shared.notify_receivers(1);
   Ok(())
 }
 
@@ -48,7 +48,7 @@ fn send_batch_internal<T: Send>(
   let (first, last) = slab.bump_batch(iter, count);
   shared.publish(first, last);
   shared.record_sent(shard, count);
-  shared.notify_receivers();
+  shared.notify_receivers(count);
 }
 
 pub struct UnboundedSyncSender<T: Send> {
